@@ -656,7 +656,11 @@ class PowerExpression(BinaryExpression):
         return self.make_ml_tag("msup", "{}{}".format(left_ml, right_ml), self.classes)
 
     def operate(self, one: NumberType, two: NumberType) -> NumberType:
-        return np.power(one, two)
+        # Python integers are exact at any magnitude; numpy would wrap at 64 bits
+        # and refuses negative integer exponents.
+        if isinstance(one, int) and isinstance(two, int) and two >= 0:
+            return one**two
+        return float(np.power(float(one), float(two)))
 
     def __str__(self) -> str:
         return "{}{}{}".format(self.left, self.with_color(self.name), self.right)
